@@ -232,6 +232,7 @@ class Origin:
                 # handler may want to act before the body is read (100-continue etc.)
                 resp = None
                 pre = getattr(self.handler, "before_body", None)
+                req.sock = c   # lets before_body() tune the socket (e.g. a small receive buffer for a slow reader)
                 if pre:
                     r0 = pre(req)
                     if r0 is not None:
